@@ -581,7 +581,7 @@ func c27cExec(c c27cCase, x *pbt.Ctx) error {
 
 func TestC27Chain(t *testing.T) {
 	pbt.Run(t, "C27", "the funding path of POST /build-chain-transactions: 1-2 wallet accounts (single key / 2-of-3, three receiving programs and one change program each); the spending account is funded over 1-4 blocks with 2-30 small BTM payments (0.1-2 BTM, some 1-4 BTM) spread over its four programs, plus vote outputs, two harness-issued assets, immature coinbase rewards and payments to the other account, none of which may be selected; ONE spend_account action on BTM (per-mille of the spendable total minus the worst-case merge fees) plus 1-3 control_address / control_program / retire recipients sharing the amount minus a 0.2-0.5 BTM margin; built as api.buildTxs does (JSON decoders, MergeSpendAction, NewBuilder, account.SpendAccountChain for the spend, Build for the others, builder.Build), every template signed once per key holder (rotating 2 of 3), serialised and decoded, validation.ValidateTx for each in the context of the next block, FinalizeTx in order, then all transactions in order in one block that the node must connect and the wallet index; oracle from the ledger model and the decoded transactions only: every merge transaction has 2-5 inputs, all inputs of the chain are distinct mature plain BTM outputs of the spending account or outputs of earlier merge transactions (each spent exactly once, amount and program as recorded), one output to a program of the spending account worth inputs - 0.06 BTM; the payment pays every recipient exactly (program computed independently), every other output is change to the spending account, inputs - change = requested amount, Fee() = template fee = validator's BTM value = inputs - outputs = margin; consumed - change = amount + merge fees; afterwards the wallet lists no consumed or intermediate output, lists the change, and the account's BTM total moved by exactly amount + merge fees; non-trivial = at least one merge transaction whose inputs come from two or more addresses of the account; distinct = case JSON",
-		pbt.Options{Sub: "chain", Journal: true, Checks: pbt.Per(150, 6000), MinClass: map[string]int{
+		pbt.Options{Sub: "chain", Journal: true, Checks: pbt.Per(150, 12000), MinClass: map[string]int{
 			"chain:merges-0": 3, "chain:merges-1": 10, "chain:merges-2+": 10, "chain:multisig-merge": 10,
 			"chain:merge-inputs-from-several-addresses": 20, "chain:change-present": 20, "chain:merge-of-merged-output": 10,
 		}}, c27cGen, c27cExec)
